@@ -1429,7 +1429,15 @@ class Process(StateMachine, persistence.Savable, metaclass=ProcessStateMachineMe
 
         finally:
             self._stepping = False
+            killing = self._killing
+            if killing is not None and not killing.done() and not self.has_terminated():
+                # The step was abandoned (the task running it was cancelled) while a kill was pending: nothing would
+                # carry the request out any more, and `kill()` would keep answering with this action for ever
+                killing.run(None)
             self._set_interrupt_action(None)
+            if self._pausing is not None and self._pausing.cancelled():
+                # Likewise a pending pause was dropped with the step: a later `pause()` must not be answered with it
+                self._pausing = None
 
     async def step_until_terminated(self) -> None:
         """If the process has not terminated,
